@@ -187,6 +187,22 @@ def _mkdict(a: int, b: int, which: int, k: int, g0: int) -> bool:
     return vjp(Q(g0)).v == g0 * (2 * k + 3) and val.v == a * (2 * k + 3)
 
 
+def _mkdict_perm(a: int, k: int, g0: int, g1: int, perm: bool, as_pairs: bool) -> bool:
+    """
+    post: _
+    """
+    # the function RETURNS a dict built by autograd's dict constructor; the caller's cotangent is an equal dict whose
+    # entries were inserted in another order: entries are paired by KEY, never by position
+    def f(x):
+        if as_pairs:
+            return ab.dict([("u", scale(x, 2)), ("v", scale(x, k))])
+        return ab.dict({"u": scale(x, 2), "v": scale(x, k)})
+
+    vjp, val = make_vjp(f, Q(a))
+    g = {"v": Q(g1), "u": Q(g0)} if perm else {"u": Q(g0), "v": Q(g1)}
+    return vjp(g).v == 2 * g0 + k * g1 and val["u"].v == 2 * a and val["v"].v == k * a
+
+
 def _ext_planted(xs: List[int], ys: List[int], pick: int, c: int, g0: int) -> bool:
     """
     pre: 1 <= len(xs) <= 2 and 1 <= len(ys) <= 2
